@@ -391,8 +391,8 @@ func runCase(roots []*fnode, gmp int, batchSpins [nBatch]int) sexp.Node {
 	writeQuery(&sb, roots)
 	query := sb.String()
 
-	prev := runtime.GOMAXPROCS(gmp)
-	defer runtime.GOMAXPROCS(prev)
+	prev := setGMP(gmp)
+	defer setGMP(prev)
 
 	// the reference: the same query with every resolver synchronous
 	rs := newRun(b.items, b.conns)
@@ -592,6 +592,8 @@ func clone(n *fnode) *fnode {
 
 var gmps = []int{1, 2, 4, 16}
 
+func setGMP(n int) int { return runtime.GOMAXPROCS(n) }
+
 func main() {
 	api = buildAPI()
 	hx.Main(func(h *hx.H) {
@@ -645,6 +647,49 @@ func main() {
 				}
 				return runCase(roots, gmp, bs)
 			})
+		}
+		// 4. graphql-ws subscriptions: a forest beneath the subscription field, 1-3 events, one of
+		// them recorded (all of them count for leaks, hangs and the response)
+		n = 300
+		if h.Thorough() {
+			n = 6000
+		}
+		for i := 0; i < n; i++ {
+			gmp := gmps[i%len(gmps)]
+			h.Case(func(r *rng.R) sexp.Node {
+				budget := r.Range(2, 9)
+				roots := genTree(r, &budget, 0)
+				var bs [nBatch]int
+				for k := range bs {
+					bs[k] = r.Intn(4)
+				}
+				events := r.Range(1, 3)
+				return runCaseWS(roots, gmp, bs, events, r.Intn(events))
+			})
+		}
+		// 5. subscriptions whose every event leaves pending work behind: an asynchronous object
+		// field (first wave) with a Batch or Go child next to a failing non-null child (second wave:
+		// the execution returns without another idle round); 2-3 events, each event recorded once
+		for _, pk := range []kindT{kBatch, kGo} {
+			for _, ck := range []struct {
+				kind kindT
+				bkey int
+			}{{kBatch, 0}, {kBatch, 1}, {kGo, 0}} {
+				for events := 2; events <= 3; events++ {
+					for which := 0; which < events; which++ {
+						pk, ck, events, which := pk, ck, events, which
+						gmp := gmps[idx%len(gmps)]
+						idx++
+						h.Case(func(r *rng.R) sexp.Node {
+							parent := &fnode{kind: pk, bkey: 0, mode: mFree, children: []*fnode{
+								{kind: ck.kind, bkey: ck.bkey, leaf: true, mode: mLate, rank: 1},
+								{kind: kSync, leaf: true, nonnull: true, outcome: 1},
+							}}
+							return runCaseWS([]*fnode{parent}, gmp, [nBatch]int{}, events, which)
+						})
+					}
+				}
+			}
 		}
 	})
 }
